@@ -347,7 +347,7 @@ pub static C14: CheckDef = CheckDef {
     assumptions: &["corpus programs are seeds; the mutation operators carry the quantifier", "4 GiB address-space cap and 60 s per 500-mutant item stand for 'allocates without bound' / 'hangs'"],
     run,
     stack_mb: 8,
-    item_timeout_s: 120,
+    item_timeout_s: 400,
     wall_cap_s: (50, 1700),
     shards: 0,
 };
